@@ -979,7 +979,7 @@ def pair_arguments(tier):
 
 def typed_base():
     if 'typed' not in _state:
-        _state['typed'] = R.base_context('c05types', R.TYPE_VALUES)
+        _state['typed'] = R.base_context('c05types', R.TYPE_VALUES, labels=False)
     return _state['typed']
 
 
